@@ -691,6 +691,8 @@ def xattr_entry_hash(name, value, vino_hash=None, signed=False):
             h = ((h << 16) & M32) ^ (h >> 16) ^ w
     return h & M32
 
+SPARSE_SHA_OVER = 1 << 30     # files larger than this are digested block-sparsely (sparse_sha) instead of being read into memory
+
 class Reader:
     def __init__(s, path, offset=0):
         s.fs = FS(path, offset); s.errors = []
@@ -724,6 +726,18 @@ class Reader:
             s.fs.f.seek(s.fs.off + pb * bs); d = s.fs.f.read(n)
             out[o:o + len(d)] = d
         return bytes(out)
+    def sparse_sha(s, I):
+        """digest for very large sparse files: sha256 over (logical block number, block bytes) of every block below i_size that is not all zeros (the last block cut at i_size and zero-padded)"""
+        bs = s.fs.bs; h = hashlib.sha256(); size = I.size; z = bytes(bs)
+        for lb, pb, ln, un in sorted(s.blockmap(I)):
+            if un: continue
+            for k in range(ln):
+                o = (lb + k) * bs
+                if o >= size: break
+                s.fs.f.seek(s.fs.off + (pb + k) * bs); d = s.fs.f.read(bs)
+                if o + bs > size: d = d[:size - o] + bytes(bs - (size - o))
+                if d != z: h.update(struct.pack('<Q', lb + k)); h.update(d)
+        return 'sparse:' + h.hexdigest()
     def mapped_blocks(s, I):
         """set of logical blocks that are mapped (initialised or not)"""
         m = set()
@@ -775,7 +789,8 @@ class Reader:
                 rec = dict(type=I.fmt, mode=I.mode & 0o7777, uid=I.uid, gid=I.gid, nlink=I.links, ino=ino, mtime=I.mtime)
                 if I.fmt == S_IFREG:
                     rec['size'] = I.size
-                    if content:
+                    if content and I.size > SPARSE_SHA_OVER and not (I.flags & FL_INLINE): rec['sha'] = s.sparse_sha(I)
+                    elif content:
                         d = s.read_data(I); rec['sha'] = hashlib.sha256(d).hexdigest()
                 elif I.fmt == S_IFLNK:
                     rec['size'] = I.size; rec['target'] = s.readlink(I)
